@@ -1749,11 +1749,14 @@ class ASTCreateTableAsStatement(ASTStatementBase):
     """CREATE TABLE ... AS ... 语句"""
 
     table_name: ASTTableNameExpression = dataclasses.field(kw_only=True)
+    if_not_exists: bool = dataclasses.field(kw_only=True, default=False)  # 是否包含 IF NOT EXISTS 关键字
     select_statement: ASTSelectStatement = dataclasses.field(kw_only=True)
 
     def source(self, sql_type: SQLType = SQLType.DEFAULT) -> str:
         """返回语法节点的 SQL 源码"""
-        return f"CREATE TABLE {self.table_name.source(sql_type)} AS {self.select_statement.source(sql_type)}"
+        if_not_exists_str = "IF NOT EXISTS " if self.if_not_exists is True else ""
+        return (f"CREATE TABLE {if_not_exists_str}{self.table_name.source(sql_type)} "
+                f"AS {self.select_statement.source(sql_type)}")
 
 
 @dataclasses.dataclass(slots=True, frozen=True, eq=True)
